@@ -29,7 +29,10 @@ UNICODE_POOL = ["é", "é", "éa", "ü", "日本", "日", "本", "\U0001d11e",
                 "\U0001d11e\U0001d11e", "a\U0001d11e", "​", " ", "  ", "ß", "ss", "İ", "i̇",
                 "ا", "א", "\U0001f642", " ", "٣", "３", "1٣", "：", "1："]
 SPECIAL_POOL = ["AND", " AND ", "-", ",", "a,b", "a-b", "None", "nan", "NaN", "<NA>", "0.0", "1e3", "\t", "x\ty", "'",
-                '"', "\\", "%", "{}", "[]", "\n", "a\nb"]
+                '"', "\\", "%", "{}", "[]", "\n", "a\nb", "\x00", "1\x00"]
+# (NUL cells stay in C10's pools: compute_combined_features hashes the utf-8 BYTES of the length-prefixed cells, so the
+#  unchanged code keeps '' / '\x00' and '1' / '1\x00' apart — unlike pandas' category coding, known finding F1 of C05 — and
+#  a rewrite that factorizes the cells first (seeded C10-HC) is caught exactly here)
 # canonically / compatibly equivalent but distinct strings (NFC vs NFD vs NFKC): different rows must stay different
 EQUIV_SETS = [["caf\u00e9", "cafe\u0301"], ["\u00c5", "A\u030a", "\u212b"], ["\ud55c", "\u1112\u1161\u11ab"],
               ["\u00f1", "n\u0303"], ["\ufb01", "fi"], ["\uff13", "3"], ["\u2126", "\u03a9"], ["\u00e9", "e\u0301"],
